@@ -88,11 +88,17 @@ fn fwd(op: &Op, _ctx: &dyn Context, operands: &mut dyn CoordinateSet) -> usize {
         let Q = H / t.powf(B);
         let S = (Q - 1.0 / Q) / 2.0;
         let T = (Q + 1.0 / Q) / 2.0;
-        let V = (B * (lon - lambda_0)).sin();
+        // The longitude difference within ±180°, also across the antimeridian
+        // (multiplied by B it is not periodic any more)
+        let mut dlon = lon - lambda_0;
+        if dlon.abs() > std::f64::consts::PI {
+            dlon = angular::normalize_symmetric(dlon);
+        }
+        let V = (B * dlon).sin();
         let U = (S * s0 - V * c0) / T;
         let v = A * ((1.0 - U) / (1.0 + U)).ln() / (2.0 * B);
 
-        let cblon = (B * (lon - lambda_0)).cos();
+        let cblon = (B * dlon).cos();
 
         // Variant A
         if !variant {
